@@ -320,7 +320,10 @@ class Message(MessageBase):  # add _expired attr
 
         def fraction_expired(lifespan: td) -> float:
             """Return the packet's age as fraction of its 'normal' life span."""
-            return (self._gwy._dt_now() - self.dtm - _TD_SECS_003) / lifespan
+            age = self._gwy._dt_now() - self.dtm - _TD_SECS_003
+            if not lifespan:  # e.g. a 1F09 with remaining_seconds == 0
+                return self.HAS_EXPIRED if age > td(0) else 0.0
+            return age / lifespan
 
         # 1. Look for easy win...
         if self._fraction_expired is not None:
